@@ -68,6 +68,27 @@ func nilRoot(c *Ctx, rule string) {
 				c.ok(rule, key, p.InstrPos(ld), "guarded by a non-nil test of Evaluator.root")
 				return
 			}
+			// `root := e.root; if root == nil { return }; … root.Value …`: the loaded pointer itself is
+			// tested before every dereference of it
+			{
+				tested := true
+				for _, r := range referrersOf(ld) {
+					isDeref := false
+					switch x := r.(type) {
+					case *ssa.FieldAddr:
+						isDeref = x.X == ssa.Value(ld)
+					case *ssa.UnOp:
+						isDeref = x.Op == token.MUL && x.X == ssa.Value(ld)
+					}
+					if isDeref && !FactsOf(fn).At(r.Block()).KnownNonNil(ld) {
+						tested = false
+					}
+				}
+				if tested {
+					c.ok(rule, key, p.InstrPos(ld), "the loaded pointer is tested against nil before every dereference of it")
+					return
+				}
+			}
 			// freshly stored in this function before the load?
 			for _, st := range storesToField(fn, "Evaluator", "root", false) {
 				if dominatesInstr(st, ld) {
@@ -118,7 +139,7 @@ func nilRoot(c *Ctx, rule string) {
 					okV = true // an element of a []*Cell (array element / selected root)
 				}
 				if sf, ok := loadedField(u); ok && sf.Is("Evaluator", "root") {
-					okV = sameFieldKnownNonNil(p, fn, u, "Evaluator", "root")
+					okV = sameFieldKnownNonNil(p, fn, u, "Evaluator", "root") || FactsOf(fn).At(dom.Block()).KnownNonNil(u)
 				}
 			}
 			c.check(okV, rule, key, p.InstrPos(dom), "ruleRoot := "+why, "ruleRoot is bound to "+why+", which is not known to be a non-nil cell")
